@@ -6,6 +6,13 @@ package env
 
 //@ func GetEnviron
 //@   sweep                                                          [C16]
+// the environment layer holds every variable of the process environment under ITS OWN name, and nothing else: a
+// variable is not also offered under another spelling (upper-cased, say) - a guard that asks for TOKEN must not be
+// satisfied by "token", which the commands will not see as $TOKEN
+//@   site (*Vars).Set#0 requires arg1 == key                                                          [C13,C10]
+//@   nosite strings.ToUpper                                                                           [C13,C10]
+//@   nosite strings.ToLower                                                                           [C13,C10]
+//@   nosite strings.EqualFold                                                                         [C13,C10]
 //@   modifies om_has, om_val, om_len, om_key
 //@   ensures fresh(result)
 
